@@ -6,6 +6,7 @@
      R nds=<rank_list> fast=<fast_nds model> dc=<rank_list>
      H spec=<hv_spec> a2=<hv2d model | -> a3=<hv3d model (3-D sweep) | -> wfg=<wfg model | -> (n <= 24)
        lim=<wfg_limit (points 2..n) (point 1), sorted, p1,..,pd/..  | -> (n >= 2, n <= 24)
+       disp=<hv_dispatch model of the front end; HOY slot (4 objectives) filled with hv_spec | -> (WFG branch: n <= 24)
      K k=<k> spec=<contribs_spec by index> c2d=<contrib2d_ref by index | ->
      N k=<k> c2d=<contrib2d_noref value@index list | ->       (spec with implied reference: see c13.py)
      S k=<k> best=<best_subset_hv> front=<front_size> sel=<hssp2d model: 0/1 per point | EXC | -> hvsel=<hv_spec of the
@@ -59,7 +60,8 @@ let () =
                let l = List.sort compare (List.map (List.map int_of_z) (wfg_limit rest p)) in
                if l = [] then "none" else String.concat "/" (List.map (fun q -> String.concat "," (List.map string_of_int q)) l)
              | _ -> "-" in
-           Printf.printf "H spec=%s a2=%s a3=%s wfg=%s lim=%s\n" (sz v) a2 a3 w lim
+           let disp = if !d <= 4 || n <= 24 then sz (hv_dispatch hv_spec !refp s) else "-" in
+           Printf.printf "H spec=%s a2=%s a3=%s wfg=%s lim=%s disp=%s\n" (sz v) a2 a3 w lim disp
          | "K" ->
            if n = 0 then print_endline "K empty" else begin
              let c = contribs_spec !refp s in
